@@ -47,6 +47,16 @@ def regressions():
     out.append({"scripts": {"1": {"ret": True, "ops": [], "busy": 25000}, "2": {"ret": True, "ops": []}},
                 "ops": [{"t": 0, "op": "add", "cb": 1, "delta": 100000}, {"t": 7, "op": "add", "cb": 2, "delta": 3000}],
                 "dur": 300000, "slack": 25000})
+    # a callback that removes a timer due in the same pass AND registers another one (the list keeps its length):
+    # "restart a supervision timer" - the removed one must not fire any more
+    for first_ret in (True, False):
+        for order in ("remove-add", "add-remove"):
+            nested = [{"op": "remove", "cb": 2}, {"op": "add", "cb": 3, "delta": 3000}]
+            if order == "add-remove":
+                nested.reverse()
+            out.append({"scripts": {"1": {"ret": first_ret, "ops": nested}, "2": {"ret": True, "ops": []}, "3": {"ret": False, "ops": []}},
+                        "ops": [{"t": 0, "op": "add", "cb": 1, "delta": 100000}, {"t": 0, "op": "add", "cb": 2, "delta": 100000}],
+                        "dur": 350000})
     return out
 
 
@@ -139,7 +149,8 @@ def run(chk, replay):
     quick = chk.tier == "quick"
     chk.model("MC_Timers.tla", "MC_Timers.cfg" if quick else "MC_Timers_t.cfg", timeout=3000)
     scs = regressions() + [history(chk.seed * 7919 + i) for i in range(400 if quick else 5000)]
-    traces = [t for t in (bounded(sc) for sc in scs) if t is not None]
+    # (regression histories are bounded by construction; the static filter would drop periodic callbacks that register one-shots)
+    traces = [scen_timers.run(sc)[0] for sc in regressions()] + [t for t in (bounded(sc) for sc in scs[len(regressions()):]) if t is not None]
     chk.validate("TimersTrace.tla", "TimersTrace.cfg", traces, "main", nontrivial=nontrivial, sig=sig)
 
 
